@@ -164,4 +164,52 @@ theorem flush_progress (g : Cfg) (s : S) (n0 : Nat) (ks : List KAns) (hc : s.clo
     backlog (flush g s (.wrote n0 :: ks)).wl < backlog s.wl := by
   simpa using flush_progress_eintr g s 0 n0 ks hc hp hne hn0
 
+/-- flush looks at the queue and the closed flag only -/
+theorem flush_backlog_congr (g : Cfg) (s t : S) (ks : List KAns) (h1 : t.closed = s.closed) (h3 : t.wl = s.wl) :
+    backlog (flush g t ks).wl = backlog (flush g s ks).wl := by
+  have e : ∀ fuel (a b : S) (ks : List KAns), a.wl = b.wl →
+      (flushLoop g fuel a ks).wl.map Item.todo = (flushLoop g fuel b ks).wl.map Item.todo := by
+    intro fuel
+    induction fuel with
+    | zero => intro a b ks h; simp [flushLoop, h]
+    | succ fuel ih =>
+      intro a b ks h
+      unfold flushLoop
+      rw [← h]
+      split
+      · rw [wl_cResetRead, wl_cResetRead]; show a.wl.map Item.todo = b.wl.map Item.todo; rw [h]
+      · simp only
+        split
+        · exact ih a b ks h
+        split
+        · rw [h]
+        · rw [h]
+        · exact ih a b _ h
+        · simp [closeNow]
+        · split
+          · exact ih a b _ h
+          split
+          · exact ih _ _ _ rfl
+          · exact ih _ _ _ rfl
+      · split
+        · exact ih a b ks h
+        split
+        · rw [h]
+        · rw [h]
+        · exact ih a b _ h
+        · simp [closeNow]
+        · simp only
+          split
+          · exact ih a b _ h
+          split
+          · exact ih _ _ _ rfl
+          · exact ih _ _ _ rfl
+  unfold flush
+  rw [h1, h3]
+  split
+  · rw [h3]
+  split
+  · rw [h3]
+  · simp only [backlog]; rw [e _ t s ks h3]
+
 end ConnFull
